@@ -22,14 +22,19 @@ TOL = 1e-9
 
 def _gen_pair(rng, size, rows_min=1):
     import numpy as np
-    n_genes = rng.randint(1, size + 1)
+    n_genes = rng.randint(1, size + 1) if rng.random() < 0.7 else rng.choice([3, 5, 6, 7, 10, 11])
     n0 = rng.randint(rows_min, size)
     n1 = rng.randint(0, size)
 
     def row():
         kind = rng.random()
-        if kind < 0.2:
+        if kind < 0.1:
             return [float(rng.randint(0, 3))] * n_genes          # constant row
+        if kind < 0.25:
+            # constant row of a value that is not exactly representable (log2(CPM+1) of equal counts):
+            # mean and second moment carry rounding error, the correlation must still be exactly 0
+            import math
+            return [rng.choice([0.1, 0.7, math.log2(3.0), math.log2(1.0 + 1.0e6 / 7.0), 13.287712379549449])] * n_genes
         return [float(rng.randint(0, 6)) for _ in range(n_genes)]
     a = np.array([row() for _ in range(n0)], dtype=float).reshape(n0, n_genes)
     b = np.array([row() for _ in range(n1)], dtype=float).reshape(n1, n_genes)
@@ -132,7 +137,7 @@ def _gen_norm(rng, size):
 contract(
     M + '_subtract_mean_and_normalize_cpu',
     properties=['C02', 'C06'], mode='bounded',
-    native=dict(gen=_gen_norm, bound='matrices up to 4 x 4, integer-valued entries, constant rows included'),
+    native=dict(gen=_gen_norm, bound='matrices up to 4 x 11, integer-valued entries; constant rows of integers and of values that are not exactly representable'),
     params=dict(data='Arr2[Real]', do_transpose='Bool'),
     returns='Arr2[Real]',
     requires=["data.shape[1] >= 1"],
